@@ -181,6 +181,18 @@ type TraitDesc struct {
 	TypeRef  string
 	Parsable bool
 	Traits   TraitInstances
+
+	// generated is set iff Type is one of the enums generated by this invocation, and then tells
+	// which unmarshalers Type has (see Generate.generatedUnmarshalers).
+	generated *unmarshalers
+}
+
+// unmarshalers tells which of json.Unmarshaler and yaml.Unmarshaler a type implements.
+// encoding.TextUnmarshaler needs no entry: implementsTextUnmarshaler looks at the method set of the
+// trait type itself, and the generated UnmarshalText has a pointer receiver, so its answer for a
+// generated enum is the same with and without a previous output.
+type unmarshalers struct {
+	json, yaml bool
 }
 
 func (td *TraitDesc) extractUnderlying() (underlying, bool) {
@@ -231,6 +243,9 @@ func (td *TraitDesc) hasUnderlying(u underlying) bool {
 }
 
 func implementsJSONUnmarshaler(td *TraitDesc) bool {
+	if td.generated != nil {
+		return td.generated.json
+	}
 	iFace, err := gencommon.FindIFaceDef("encoding/json", "Unmarshaler")
 	if err != nil || iFace == nil {
 		panic("Failed to find encoding/json.Unmarshaler")
@@ -239,6 +254,9 @@ func implementsJSONUnmarshaler(td *TraitDesc) bool {
 }
 
 func implementsYAMLUnmarshaler(td *TraitDesc) bool {
+	if td.generated != nil {
+		return td.generated.yaml
+	}
 	iFace, err := gencommon.FindIFaceDef("gopkg.in/yaml.v3", "Unmarshaler")
 	if err != nil || iFace == nil {
 		panic("Failed to find gopkg.in/yaml.v3.Unmarshaler")
